@@ -939,6 +939,36 @@ static void gen_lane(const char *dir, const target_t *t, lane_t *L, int li)
             }
         }
     }
+    /* (b2) TLS <= 1.2 / DTLS Certificate message whose first entry is a few bytes LONGER than the certificate inside it (trailing
+       padding), every enclosing length consistent: psX509ParseCert tolerates the tail, the code after it must cope */
+    for (int ri = 0; ri < g.n && L->scn->nver != MX_TLS13; ri++) {
+        const unsigned char *rec = g.raw[ri]; int rl = g.rawlen[ri], hh = L->dtls ? 12 : 4;
+        if (g.enc[ri] || rl <= h || rec[0] != 22) continue;
+        int off = h, done = 0;
+        while (!done && off + hh <= rl) {
+            int ml = (rec[off + 1] << 16) | (rec[off + 2] << 8) | rec[off + 3];
+            if (L->dtls && (((rec[off + 9] << 16) | (rec[off + 10] << 8) | rec[off + 11]) != ml || rec[off + 6] || rec[off + 7] || rec[off + 8])) break;   /* fragmented */
+            if (off + hh + ml > rl) break;
+            if (rec[off] == 11 && ml >= 6) {
+                const unsigned char *b = rec + off + hh; int pad = 5;
+                int chain = (b[0] << 16) | (b[1] << 8) | b[2], c0 = (b[3] << 16) | (b[4] << 8) | b[5];
+                if (chain + 3 == ml && c0 + 3 <= chain && rl + pad < (int) sizeof buf) {
+                    int n = 0, ins = off + hh + 6 + c0;                 /* end of the first certificate */
+                    memcpy(buf, rec, ins); n = ins; memset(buf + n, 0, pad); n += pad; memcpy(buf + n, rec + ins, rl - ins); n += rl - ins;
+                    unsigned char *m = buf + off, *bb = buf + off + hh;
+                    m[1] = (ml + pad) >> 16; m[2] = (ml + pad) >> 8; m[3] = (ml + pad);
+                    if (L->dtls) { m[9] = m[1]; m[10] = m[2]; m[11] = m[3]; }
+                    bb[0] = (chain + pad) >> 16; bb[1] = (chain + pad) >> 8; bb[2] = (chain + pad);
+                    bb[3] = (c0 + pad) >> 16; bb[4] = (c0 + pad) >> 8; bb[5] = (c0 + pad);
+                    buf[h - 2] = (n - h) >> 8; buf[h - 1] = (n - h);
+                    hdr[0] = li; hdr[1] = 0; hdr[2] = ri; hdr[3] = 0;
+                    snprintf(fn, sizeof fn, "%s-c%02d-cert-padded", L->scn->name, ri); put_seed(dir, t->name, fn, hdr, buf, n);
+                    done = 1;
+                }
+            }
+            off += hh + ml;
+        }
+    }
     /* (c) connected state: post-handshake messages under the current keys */
     {
         int n; hdr[0] = li; hdr[2] = L->ncuts; hdr[3] = 0;
